@@ -413,7 +413,16 @@ def shards(tier: str, seed: int) -> list[dict]:
         out.append({"part": "text", "n": n_c // nsh, "seed": core.derive_seed(seed, "t", i)})
     for shape in SHAPES:
         out.append({"part": "timing", "shape": shape})
+    # coverage-guided campaigns (atheris / libFuzzer) over the same two strategies
+    n_f = _scale(8000 if tier == "quick" else 2500000)
+    nf = 2 if tier == "quick" else 16
+    for i in range(nf):
+        out.append({"part": "atheris", "which": ("grammar", "text")[i % 2], "runs": n_f // nf, "seed": core.derive_seed(seed, "a", i)})
     return out
+
+
+def fuzz_strategy(which):
+    return (_grammar() if which != "text" else _texts()), _mkcase
 
 
 def run_shard(spec: dict):
@@ -447,6 +456,17 @@ def run_shard(spec: dict):
             col.case(_mkcase(s), nontrivial(s), [part + ":" + c for c in classes], fails)
 
         core.hyp_run(strat, spec["n"], spec["seed"], body)
+    elif part == "atheris":
+        from vlib import fuzz
+
+        n, cases, note = fuzz.run_campaign("C14", spec["runs"], spec["seed"], spec["which"])
+        col.evaluations += n
+        col.classes["atheris-executions"] += n
+        col.extra["atheris_campaigns"] = 1
+        if note:
+            col.notes["atheris-skipped:" + note[:80]] += 1
+        for case in cases:
+            col.case(case, True, ["atheris-finding"], check_case(case))
     elif part == "timing":
         fails, times = check_timing(spec["shape"])
         col.case({"kind": "timing", "shape": spec["shape"]}, True, ["timing"], fails, distinct_by_construction=True)
